@@ -211,6 +211,8 @@ pub struct Cursor<'a, S: Storage + ?Sized> {
     current_page: u32,
     current_index: usize,
     exhausted: bool,
+    /// leaves entered while walking the chain; more than the file has pages means a next_leaf cycle
+    leaves_walked: u32,
 }
 
 pub struct BTreeReader<'a> {
@@ -246,6 +248,7 @@ impl<'a> BTreeReader<'a> {
                         current_page,
                         current_index: 0,
                         exhausted: false,
+                        leaves_walked: 0,
                     };
                     cursor.skip_empty_leaves()?;
                     return Ok(cursor);
@@ -286,6 +289,7 @@ impl<'a> BTreeReader<'a> {
                             current_page,
                             current_index: 0,
                             exhausted: true,
+                            leaves_walked: 0,
                         };
                         return Ok(match probe.find_rightmost_nonempty(self.root_page)? {
                             Some((page_no, last_index)) => Cursor {
@@ -294,6 +298,7 @@ impl<'a> BTreeReader<'a> {
                                 current_page: page_no,
                                 current_index: last_index,
                                 exhausted: false,
+                                leaves_walked: 0,
                             },
                             None => probe,
                         });
@@ -304,6 +309,7 @@ impl<'a> BTreeReader<'a> {
                         current_page,
                         current_index: cell_count - 1,
                         exhausted: false,
+                        leaves_walked: 0,
                     });
                 }
                 PageType::BTreeInterior => {
@@ -323,7 +329,17 @@ impl<'a> BTreeReader<'a> {
         use crate::btree::leaf::SearchResult;
 
         let mut current_page = self.root_page;
+        let page_count = self.storage.page_count();
+        let mut pages_walked = 0u32;
         loop {
+            // a walk of a well-formed tree enters every page of the file at most once
+            pages_walked += 1;
+            ensure!(
+                pages_walked <= page_count,
+                "corrupt tree: {} pages walked in a file of {} pages (child / next_leaf cycle)",
+                pages_walked,
+                page_count
+            );
 
             let page_data = self.storage.page(current_page)?;
             let header = PageHeader::from_bytes(page_data)?;
@@ -383,6 +399,7 @@ impl<'a> BTreeReader<'a> {
                         current_page,
                         current_index: index,
                         exhausted: false,
+                        leaves_walked: 0,
                     };
                     cursor.skip_empty_leaves()?;
                     return Ok(cursor);
@@ -1326,6 +1343,7 @@ impl<'a, S: Storage> BTree<'a, S> {
                         current_page,
                         current_index: 0,
                         exhausted: false,
+                        leaves_walked: 0,
                     };
                     cursor.skip_empty_leaves()?;
                     return Ok(cursor);
@@ -1368,6 +1386,7 @@ impl<'a, S: Storage> BTree<'a, S> {
                         current_page,
                         current_index: index,
                         exhausted: false,
+                        leaves_walked: 0,
                     };
                     cursor.skip_empty_leaves()?;
                     return Ok(cursor);
@@ -1405,6 +1424,7 @@ impl<'a, S: Storage> BTree<'a, S> {
                             current_page,
                             current_index: 0,
                             exhausted: true,
+                            leaves_walked: 0,
                         };
                         return Ok(match probe.find_rightmost_nonempty(self.root_page)? {
                             Some((page_no, last_index)) => Cursor {
@@ -1413,6 +1433,7 @@ impl<'a, S: Storage> BTree<'a, S> {
                                 current_page: page_no,
                                 current_index: last_index,
                                 exhausted: false,
+                                leaves_walked: 0,
                             },
                             None => probe,
                         });
@@ -1423,6 +1444,7 @@ impl<'a, S: Storage> BTree<'a, S> {
                         current_page,
                         current_index: cell_count - 1,
                         exhausted: false,
+                        leaves_walked: 0,
                     });
                 }
                 PageType::BTreeInterior => {
@@ -1489,11 +1511,24 @@ impl<'a, S: Storage + ?Sized> Cursor<'a, S> {
             );
         }
 
+        self.enter_next_leaf(page_count)?;
         self.storage.prefetch_pages(next_page + 1, 2);
 
         self.current_page = next_page;
         self.current_index = 0;
         self.skip_empty_leaves()
+    }
+
+    /// Counts one step along the leaf chain: a chain longer than the file has pages is a cycle.
+    fn enter_next_leaf(&mut self, page_count: u32) -> Result<()> {
+        self.leaves_walked += 1;
+        ensure!(
+            self.leaves_walked <= page_count,
+            "corrupt leaf chain: {} leaves walked in a file of {} pages (next_leaf cycle)",
+            self.leaves_walked,
+            page_count
+        );
+        Ok(())
     }
 
     /// If the cursor stands past the last cell of its leaf (in particular on an emptied leaf, which
@@ -1520,6 +1555,7 @@ impl<'a, S: Storage + ?Sized> Cursor<'a, S> {
                     page_count
                 );
             }
+            self.enter_next_leaf(page_count)?;
             self.current_page = next_page;
             self.current_index = 0;
         }
